@@ -39,6 +39,9 @@ type BatchResult struct {
 	LastSeed uint64
 	LastRun  int
 	Started  int
+	// O8: the last run of the batch executed once more, alone, in a fresh worker process
+	AloneChecked bool
+	AloneHash    string // its result digest ("" if that process did not complete the run)
 }
 
 type splitmix struct{ s uint64 }
@@ -169,6 +172,9 @@ func batchArgs(bt Batch) []string {
 	return a
 }
 
+// aloneCheck switches oracle O8 on (check command) or off (selftest, minimiser).
+var aloneCheck bool
+
 // runBatches executes all batches on a pool of worker processes.
 func runBatches(b *Build, batches []Batch, workers int, perBatchTimeout time.Duration, stopOnViolation bool) []*BatchResult {
 	results := make([]*BatchResult, len(batches))
@@ -193,10 +199,23 @@ func runBatches(b *Build, batches []Batch, workers int, perBatchTimeout time.Dur
 				prefix := filepath.Join(b.Scratch, fmt.Sprintf("race-%d", bt.ID))
 				r := runWorker(b, bt.Race, batchArgs(bt), prefix, perBatchTimeout)
 				r.Batch = bt
+				if aloneCheck && r.ExitCode == 0 && r.Viol == nil && !r.TimedOut && bt.Runs > 1 && len(r.Done) == bt.Runs {
+					// O8: the same run without the history of the batch
+					k := bt.Runs - 1
+					a := runWorker(b, bt.Race, append(batchArgs(bt), "-only", fmt.Sprint(k)), prefix+"-alone", perBatchTimeout)
+					r.AloneChecked = true
+					if a.ExitCode == 0 && len(a.Done) == 1 {
+						r.AloneHash = a.Done[0].ResHash
+					}
+					r.RaceLog += a.RaceLog
+				}
 				mu.Lock()
 				results[i] = r
 				if stopOnViolation && (r.Viol != nil || r.ExitCode != 0) {
 					stop = true
+				}
+				if stopOnViolation && r.AloneChecked && r.AloneHash != "" && len(r.Done) > 0 && r.AloneHash != r.Done[len(r.Done)-1].ResHash {
+					stop = true // O8 difference: reported after the batches in flight have finished
 				}
 				mu.Unlock()
 			}
